@@ -412,8 +412,13 @@ pub fn gen_case(rng: &mut Rng, n: usize) -> Case {
             for c in &chosen {
                 bits[c.1 as usize] = true;
             }
-            let types = t(&format!("Tb@ ::= BIT STRING {{ {} }}\n", decl.iter().map(|(n, p)| format!("{n}({p})")).collect::<Vec<_>>().join(", ")));
+            let list = decl.iter().map(|(n, p)| format!("{n}({p})")).collect::<Vec<_>>().join(", ");
             let val = format!("{{ {} }}", chosen.iter().map(|c| c.0.clone()).collect::<Vec<_>>().join(", "));
+            if rng.chance(1, 3) {
+                // the governing type written in line (anonymous): several such types with lists of their own meet in one module
+                return Case { types: String::new(), ty: format!("BIT STRING {{ {list} }}"), val, expected: AV::Bits(bits), trailing_zeros_insignificant: true, as_default: !chosen.is_empty(), form: "bitstring/named-bits/inline-type" };
+            }
+            let types = t(&format!("Tb@ ::= BIT STRING {{ {list} }}\n"));
             Case { types, ty: t("Tb@"), val, expected: AV::Bits(bits), trailing_zeros_insignificant: true, as_default: !chosen.is_empty(), form: "bitstring/named-bits" }
         }
         10 => {
